@@ -146,6 +146,7 @@ static bool gen_c13(uint64_t seed, const std::string &tier, uint64_t i, Plan &p)
   p.label = "files=" + std::to_string(files.a.size()) + " deliveries=" + std::to_string(nd);
   if (r.chance(0.08)) { Fault f; f.actor = "qmail-local"; f.call = C_MALLOC; f.nth = (int)r.range(1, 60); f.kind = "null"; p.faults.push_back(f); }   // out of memory: a temporary failure, judged by C12's outcome rules only (fault_hit)
   if (p.faults.empty() && r.chance(0.08)) { Fault f; f.actor = "qmail-local"; f.call = C_READ; f.path = "/.qmail"; f.nth = (int)r.range(1, 2); f.kind = "error"; f.err = r.pick(std::vector<int>{EIO, ENOMEM, ESTALE}); p.faults.push_back(f); }   // the instruction file becomes unreadable while it is read
+  if (p.faults.empty() && r.chance(0.10)) { Fault f; f.actor = "qmail-local"; f.call = C_READ; f.path = "/.qmail"; f.nth = (int)r.range(1, 2); f.kind = "short"; f.arg = r.pick(std::vector<int64_t>{1, 2, 9, 30, 100, 255}); p.faults.push_back(f); }   // a read that returns fewer bytes than asked for before the end of the file (legal: signal, network file system); nothing is excused, the whole file counts
   if (p.faults.empty() && r.chance(0.06)) { Fault f; f.actor = "qmail-local#"; f.call = r.chance(0.8) ? C_FORK : C_PIPE; f.nth = (int)r.range(1, 3); f.kind = "error"; f.err = r.pick(std::vector<int>{EAGAIN, ENOMEM, EMFILE}); p.faults.push_back(f); }   // no process or pipe for a maildir, program or forward instruction
   if (p.faults.empty() && r.chance(0.04)) { Fault f; f.actor = "qmail-local#"; f.call = C_CHDIR; f.nth = 1; f.kind = "error"; f.err = r.pick(std::vector<int>{EACCES, ESTALE, EIO, ENOENT, ETIMEDOUT}); p.faults.push_back(f); }   // the home directory cannot be entered right now
   return true;
